@@ -21,16 +21,18 @@ def dense(M):
     return np.asarray(M.todense()) if hasattr(M, 'todense') else np.asarray(M)
 
 
-def oracle_term(term, X):
-    """documented columns of one term recomputed independently (uses b_spline_basis only for spline columns)"""
+def oracle_term(term, X, Xtr=None):
+    """documented columns of one term recomputed independently (uses b_spline_basis only for spline columns);
+    factor terms: one indicator per category of the TRAINING column `Xtr` (consecutive integer codes from its minimum),
+    independent of what compile stored on the term"""
     from pygam.utils import b_spline_basis
     n = X.shape[0]
     if term.isintercept:
         return np.ones((n, 1))
     if term.istensor:
-        cols = oracle_term(term._terms[0], X)
+        cols = oracle_term(term._terms[0], X, Xtr)
         for t in term._terms[1:]:
-            b = oracle_term(t, X)
+            b = oracle_term(t, X, Xtr)
             cols = np.einsum('ni,nj->nij', cols, b).reshape(n, -1)
         if term.by is not None:
             cols = cols * X[:, term.by][:, None]
@@ -38,11 +40,16 @@ def oracle_term(term, X):
     if term._name == 'linear_term':
         return X[:, term.feature][:, None].copy()
     if term._name == 'factor_term':
-        lo = term.edge_knots_[0] + 0.5
-        k = int(term.n_splines)
+        if Xtr is not None:
+            lo = float(np.min(Xtr[:, term.feature]))
+            k = int(len(np.unique(Xtr[:, term.feature])))
+        else:
+            lo = term.edge_knots_[0] + 0.5
+            k = int(term.n_splines)
         codes = np.round(X[:, term.feature] - lo).astype(int)
         ind = np.zeros((n, k))
-        ind[np.arange(n), codes] = 1.0
+        ok = (codes >= 0) & (codes < k)
+        ind[np.arange(n)[ok], codes[ok]] = 1.0
         return ind[:, 1:] if term.coding == 'dummy' else ind
     B = b_spline_basis(X[:, term.feature], term.edge_knots_, n_splines=term.n_splines, spline_order=term.spline_order,
                        sparse=False, periodic=(term.basis == 'cp'), verbose=False)
@@ -151,7 +158,7 @@ def run(ctx):
             ctx.disagree(st_idx, sig, dict(idx=impl_idx, total=impl_total), dict(idx=model_idx, total=model_total), 'index bookkeeping differs')
         # ---- full rows
         full = dense(tl.build_columns(Xq))
-        ref = np.hstack([oracle_term(t, Xq) for t in tl])
+        ref = np.hstack([oracle_term(t, Xq, pr.X) for t in tl])
         ctx.case(st_or, sig, nontrivial=nontriv)
         oracle_bad = full.shape != ref.shape or np.abs(full - ref).max(initial=0.0) > 1e-12 * max(1.0, np.abs(ref).max(initial=0.0))
         if oracle_bad:
